@@ -5,6 +5,7 @@ package main
 import (
 	"fmt"
 	"strconv"
+	"strings"
 )
 
 // C14, deterministic "repeated record" streams (always generated, no PRNG): every legacy parser
@@ -116,6 +117,43 @@ func c14SegMaps(form, segs int) c14MapsecT {
 }
 
 func c14RunStreams(emit c14EmitFn) {
+	// memory map: FILE NAMES with special characters.  A line that parses as a mapping IS a mapping whatever its path
+	// contains ('=' as in Android's /data/app/<pkg>-<base64>==/lib/..., ':', '@', "(deleted)", brackets, non-ASCII,
+	// very long paths); only lines that are not mappings may be attr=value assignments.  The special name is used for
+	// the first entry (main-binary candidate) and for a later one, in every map form, with samples inside it.
+	long := "/data/" + strings.Repeat("very-long-directory-name/", 12) + "libnative.so"
+	for i, name := range []string{"/data/app/com.example.app-AbC==/lib/arm64/libnative.so", "/opt/a=b/server", "=", "/x=", "k=v", "/bin/a:b", "/bin/a@b",
+		"/bin/app(deleted)", "/p/(@ff)x", long, "/data/\xe6\x97\xa5\xe6\x9c\xac/app", "/bin/a[b]", "/opt/$x/bin", "/opt/a,b;c", "/opt/100%/x+y"} {
+		for form := 0; form < 3; form++ {
+			mk := func(st uint64, file string) c14DmapT {
+				e := c14DmapT{kind: form, start: c14Hx(st), limit: c14Hx(st + 0x1000), file: file}
+				if form == 0 {
+					e.perm, e.offset, e.dev, e.inode = "r-xp", "00000000", "fc:01", "7"
+				}
+				if form == 1 && i%2 == 0 {
+					e.offset, e.buildid = "1000", "abc123"
+				}
+				return e
+			}
+			for pos := 0; pos < 2; pos++ {
+				ents := []c14DmapT{mk(0x400000, name), mk(0x500000, "/usr/lib/libc-2.15.so"), mk(0x600000, "/bin/other")}
+				if pos == 1 {
+					ents = []c14DmapT{mk(0x400000, "/bin/server"), mk(0x500000, "/usr/lib/libc-2.15.so"), mk(0x600000, name)}
+				}
+				m := c14MapsecT{present: true, entries: ents}
+				a := uint64(0x400011) + uint64(pos)*0x200000
+				tags := []string{fmt.Sprintf("mapname:%d", i), fmt.Sprintf("segs:form%d", form)}
+				if (i+form+pos)%2 == 0 {
+					cd := c14CdocT{typ: "goroutine", total: "3", m: m, items: []c14CitemT{{count: "1", addrs: []string{c14Hx(a), c14Hx(0x500021)}}, {count: "2", addrs: []string{c14Hx(0x600031), c14Hx(0x400031)}}}}
+					emit("maps-filenames", "doc", "count", cd.term(), []byte(c14JoinLines(cd.lines())), nil, false, true, tags...)
+				} else {
+					pd := c14PdocT{kind: (i + form) % 4, period: 100, eod: true, maps: ents,
+						samples: []c14PsampleT{{count: 1, addrs: []uint64{a - 1, 0x500021}}, {count: 2, addrs: []uint64{0x600030, 0x400031}}}}
+					emit("maps-filenames", "doc", "cpu", pd.term(), pd.bytes(), nil, false, true, tags...)
+				}
+			}
+		}
+	}
 	// memory map: which entry is taken for the main binary.  A shared library (".so" at the end, or ".so" followed by
 	// "." / "_" and a digit -- any number of version components), a bracketed pseudo file, an empty name and a
 	// "(deleted)" marker are never chosen; names that only look like libraries are.  The candidate is listed BEFORE
